@@ -235,7 +235,7 @@ PROPS = {
                 {"name": "c13_expiry", "covers": ["expired", "valid"], "quick": {"max_paths": 1000, "timeout": 600}},
                 {"name": "c13_binding", "covers": ["altered"], "quick": {"max_paths": 1000, "timeout": 600}},
                 {"name": "c13_proof", "covers": ["verifies", "fails"], "quick": {"max_paths": 1000, "timeout": 600}},
-                {"name": "c13_historical", "covers": ["inconsistent", "consistent", "both_in_the_past", "dated_ahead_of_the_verifier_clock"], "quick": {"max_paths": 1000, "timeout": 600}},
+                {"name": "c13_historical", "covers": ["inconsistent", "consistent", "grown", "both_in_the_past", "dated_ahead_of_the_verifier_clock"], "quick": {"max_paths": 1000, "timeout": 600}},
             ]},
             {"engine": "K", "crate": "k_evm", "harnesses": [
                 kh(f"c13_signed_bytes_bind_{f}", f"PaymentQuote::bytes_for_signing: two field sets that differ only in {what} give different signed bytes", "all values of every signed field (timestamp < 2^40 s); network_size present", C13_K_STUBS, quick=900, thorough=2400, only=only)
@@ -255,8 +255,7 @@ PROPS = {
         "parts": [
             {"engine": "D", "crate": "d_node", "harnesses": [
                 {"name": "c15_chunk", "covers": ["returned", "error"], "quick": {"max_paths": 1000, "timeout": 300}},
-                {"name": "c15_vault", "covers": ["returned", "error", "error_reply_with_record_refused"], "quick": {"max_paths": 10000, "timeout": 600},
-                 "thorough": {"env": {"C15_VERSIONS": 3}, "max_paths": 200000, "timeout": 1800}},
+                {"name": "c15_vault", "covers": ["returned", "error", "error_reply_with_record_refused", "three_versions"], "quick": {"env": {"C15_VERSIONS": 3}, "max_paths": 100000, "timeout": 600}},
             ]},
         ],
         "assumptions": NODE_ASSUMPTIONS[:1] + [
